@@ -48,7 +48,7 @@ def sym_params(h, model, fixed=None, positive_unbounded=False):
 # exponent sets (bounded; everything else symbolic)
 def exps(tier, name):
     if name == 'Toth':
-        return [F(1, 2), F(1), F(2)] if tier == 'quick' else [F(1, 3), F(1, 2), F(1), F(3, 2), F(2), F(3)]
+        return [F(1, 2), F(1), F(2)] if tier == 'quick' else [F(1, 3), F(1, 2), F(1), F(2), F(3)]   # (3/2: inverse identity undecided within 20 min)
     if name == 'DA':
         return [F(3, 2), F(2)] if tier == 'quick' else [F(3, 2), F(2), F(5, 2)]
     if name == 'JensenSeaton':
